@@ -281,14 +281,23 @@ def file_info(ctx, nfiles, ndamaged, budget_events):
     from lib import tracev
     items = make_files(ctx, nfiles, ndamaged)
     built = run_workers(ctx, "fi_build", items, 4, "fibuild")
+    broken = set()
     for i, r in built:
-        if "key" in r:
-            raise MachineryError("building file %d failed: %s" % (i, r))
+        if "key" in r:       # the encoder crashed, failed, or produced Streams that do not parse
+            if r["key"] not in XZSEEN:
+                XZSEEN.add(r["key"])
+                ctx.violation(r["key"] if r["key"].startswith("fileinfo:") else "fileinfo:build_crash", r["detail"],
+                              dict(kind="file", item=items[i]["streams"]))
+            broken.add(i)
+            continue
         items[i]["built"] = r
         if items[i].get("bigindex") and r["layout"][-1][1] <= 8192:
             raise MachineryError("the big-Index file has an Index of only %d bytes" % r["layout"][-1][1])
+    items = [it for n, it in enumerate(items) if n not in broken]
+    if not items:
+        return []
     valid = [it for it in items if "damage" not in it]
-    plans = eval_histories(ctx, [it["built"]["history"] for it in valid], "files")
+    plans = eval_histories(ctx, [it["built"]["history"] for it in valid], "files") if valid else []
     for it, p in zip(valid, plans):
         obs = [o for k, o in p[-1]["obs"] if k == 1]
         if not obs or not obs[0]["small"] and False:
@@ -401,6 +410,7 @@ def generate_plans(ctx):
     jobs.append(("bfs", dict(cfg="GenIndexBfs.cfg" if q else "GenIndexBfsT.cfg")))
     jobs.append(("iter", dict(cfg="GenIndexIter.cfg")))
     # every index of 5+ Streams over {empty, empty Block, Block} and of 5+ all-empty / non-empty Record groups
+    jobs.append(("limits", dict(cfg="GenIndexLim.cfg")))     # every transition over sizes near 2^62 / 2^63, up to 3 Streams
     jobs.append(("hash", dict(cfg="GenIndexHash.cfg")))      # every transition of a small lzma_index_hash state graph
     jobs.append(("family", dict(cfg="GenIndexFam.cfg" if q else "GenIndexFamT.cfg")))      # every transition of a one-index iterator state graph
     seeds = [ctx.rng.randrange(1, 1 << 30) for _ in jobs]
@@ -409,7 +419,8 @@ def generate_plans(ctx):
         if "simulate" in kw:
             kw = dict(kw, seed=seed)
         return label, tlc.run("GenIndex", workers=1, timeout=1500, **kw)
-    with concurrent.futures.ThreadPoolExecutor(len(jobs)) as ex:
+    jobs.sort(key=lambda j: {"family": 0, "limits": 1, "walks": 2}.get(j[0], 3))     # longest first, four at a time
+    with concurrent.futures.ThreadPoolExecutor(4) as ex:
         rs = list(ex.map(one, zip(jobs, seeds)))
     return rs
 
@@ -441,15 +452,15 @@ def run(ctx):
     # (R) index histories
     groups = {}
     for label, r in gen:
-        ctx.add_tlc("GenIndex(%s)" % label, r, exhaustive=(label in ("bfs", "iter", "family", "hash")) or None)
+        ctx.add_tlc("GenIndex(%s)" % label, r, exhaustive=(label in ("bfs", "iter", "family", "hash", "limits")) or None)
         groups.setdefault(label, []).extend(plans_from_tlc(r.out))
     if len(groups.get("walks", [])) < 100 or len(groups.get("bfs", [])) < 1000 or len(groups.get("volume", [])) < 10 \
        or len(groups.get("iter", [])) < 500 or len(groups.get("family", [])) < 1000 \
-       or len(groups.get("hash", [])) < 300:
+       or len(groups.get("hash", [])) < 300 or len(groups.get("limits", [])) < 3000:
         raise MachineryError("plan generation produced too few plans: %s" % {k: len(v) for k, v in groups.items()})
     ctx.sample(dict(kind="index_plan", ops=plan_ops(groups["walks"][0])))
     ctx.sample(dict(kind="index_volume_plan", ops=plan_ops(groups["volume"][0])))
-    for label in ("iter", "hash", "family", "bfs", "walks", "volume"):
+    for label in ("iter", "hash", "limits", "family", "bfs", "walks", "volume"):
         replay_index(ctx, groups[label], label)
     # (V) file-info
     fplans = file_info(ctx, 24 if q else 160, 6 if q else 40, 12000 if q else 120000)
